@@ -282,6 +282,12 @@ Fixpoint listS_eqb (a b : list string) : bool :=
   | x :: a', y :: b' => String.eqb x y && listS_eqb a' b'
   | _, _ => false
   end.
+(* order-insensitive comparison: the ORDER of members / includes / reported segments is not part of
+   the property (natsort is only assumed to permute), so model and implementation are compared as
+   multisets there; the order of the group list itself is compared exactly *)
+Definition listZ_eqp (a b : list Z) : bool := listZ_eqb (isortZ a) (isortZ b).
+Definition listS_eqp (a b : list string) : bool := listS_eqb (isort String.leb a) (isort String.leb b).
+
 Definition optS_eqb (a b : option string) : bool :=
   match a, b with
   | None, None => true
@@ -289,8 +295,8 @@ Definition optS_eqb (a b : option string) : bool :=
   | _, _ => false
   end.
 Definition group_eqb (a b : group) : bool :=
-  String.eqb (gid a) (gid b) && listZ_eqb (members a) (members b)
-  && listS_eqb (includes a) (includes b) && optS_eqb (nlex a) (nlex b).
+  String.eqb (gid a) (gid b) && listZ_eqp (members a) (members b)
+  && listS_eqp (includes a) (includes b) && optS_eqb (nlex a) (nlex b).
 Fixpoint groups_eqb (a b : list group) : bool :=
   match a, b with
   | [], [] => true
@@ -310,7 +316,7 @@ Definition obs_of_res (r : result (list Z)) : obs_res :=
   end.
 Definition obs_res_eqb (a b : obs_res) : bool :=
   match a, b with
-  | OList x, OList y => listZ_eqb x y
+  | OList x, OList y => listZ_eqp x y
   | ONoGroup, ONoGroup | ONoSuchGroup, ONoSuchGroup | ORecursion, ORecursion => true
   | _, _ => false
   end.
